@@ -47,6 +47,11 @@ TAsk == /\ IsEv("ask") /\ Send(Ev[l].c) /\ Consume
         \* C06: over the right transport, to the right endpoint, from the bind address, once
         /\ Ev[l].via = Path(Ev[l].c) /\ (Path(Ev[l].c) # "bcast" => Ev[l].to = Ctl(Ev[l].c)) /\ Ev[l].srcok /\ Ev[l].nth = 1
 
+\* slow TCP handshake: the request reaches the farm when the connection is finally established (Connect); the dial itself
+\* (Send with a slowstall plan) was inferred
+TAskConnect == /\ IsEv("ask") /\ pc[Ev[l].c] = "dialing" /\ plan[Ev[l].c] = Ev[l].plan /\ Connect(Ev[l].c) /\ Consume
+               /\ Ev[l].via = Path(Ev[l].c) /\ Ev[l].to = Ctl(Ev[l].c) /\ Ev[l].srcok /\ Ev[l].nth = 1
+
 \* a set-address call returns as soon as its request is written: the farm may log the arrival of the
 \* request only after the call has returned (the Send was then inferred)
 TAskLate == /\ IsEv("ask") /\ Kind(Ev[l].c) = "setaddr" /\ pc[Ev[l].c] \in {"closing", "returning", "done"} /\ sends[Ev[l].c] = 1
@@ -77,7 +82,9 @@ TRet == /\ IsEv("ret")
            /\ Return(c)
            /\ KindMatches(out[c].kind, Ev[l].kind)
            /\ (Ev[l].kind = "ok" /\ Normal(c) => out[c].from = Ev[l].from)
-           /\ ((askedAt[c] # -1 /\ Ev[l].rel # -1) => now - askedAt[c] = Ev[l].rel)
+           \* (for a slow handshake the harness measures from the start of the call: askedAt is the start of the dial)
+           /\ (IF plan[c] # <<>> /\ plan[c][1][1] = "slowstall" THEN now - askedAt[c] = Ev[l].relstart
+               ELSE ((askedAt[c] # -1 /\ Ev[l].rel # -1) => now - askedAt[c] = Ev[l].rel))
         /\ Consume
 
 \* inferred steps
@@ -88,6 +95,8 @@ TSilent ==
      \/ \E c \in Calls : Kind(c) = "setaddr" /\ Send(c) /\ plan'[c] = <<<<"silence", 0>>>> /\ sends'[c] = 1
      \* a refused peer (closed port): nothing reaches the farm, so there is no ask event
      \/ \E c \in Calls : Path(c) \in {"tcp", "udp"} /\ Send(c) /\ plan'[c] = <<<<"refused", 0>>>>
+     \* the dial of a slow handshake
+     \/ \E c \in Calls, cd \in 1..(T - 1) : Path(c) = "tcp" /\ Send(c) /\ plan'[c] = <<<<"slowstall", cd>>>>
      \* a peer that never answers the SYN: likewise no ask event
      \/ \E c \in Calls : Path(c) = "tcp" /\ Send(c) /\ plan'[c] = <<<<"blackhole", 0>>>>
 
@@ -99,7 +108,7 @@ TDgLate == /\ IsEv("dg")
 Done == l = Len(Ev) + 1
 Accept == Done /\ PrintT(<<"ACCEPTED", Scen[sc].id>>) /\ UNCHANGED tvars
 
-TraceNext == TStart \/ TAsk \/ TAskLate \/ TDg \/ TDgLate \/ TStray \/ TStrayLate \/ TRet \/ TSilent \/ Accept
+TraceNext == TStart \/ TAsk \/ TAskConnect \/ TAskLate \/ TDg \/ TDgLate \/ TStray \/ TStrayLate \/ TRet \/ TSilent \/ Accept
 
 \* longest matched prefix per scenario
 HighWater == IF l > TLCGet(sc) THEN TLCSet(sc, l) ELSE TRUE
